@@ -1573,15 +1573,17 @@ func (t *Topic) thisUserSub(sess *Session, pkt *ClientComMessage, asUid types.Ui
 			}
 
 			if userData.modeGiven == types.ModeUnset {
-				// New user: default access.
-				userData.modeGiven = t.accessFor(asLvl)
+				// New user: default access. A topic has one owner: ownership is never given by default.
+				userData.modeGiven = t.accessFor(asLvl) &^ types.ModeOwner
 			}
 
 			if modeWant == types.ModeUnset {
 				// User wants default access mode.
-				userData.modeWant = t.accessFor(asLvl)
+				userData.modeWant = t.accessFor(asLvl) &^ types.ModeOwner
 			} else {
-				userData.modeWant = modeWant
+				// A new subscriber cannot request ownership: it's transferred by the owner
+				// and then accepted (see below).
+				userData.modeWant = modeWant &^ types.ModeOwner
 			}
 		}
 
